@@ -80,7 +80,7 @@ def run(chk):
         c = D.gen_incoh_case(rnd, i)
         c["xcheck"] = i % 200 == 0
         cases.append(c)
-    events = D.collect(cases)
+    events = D.collect(cases, chk)
     D.judge(chk, events, cases, "C06", jobs=14, timeout=6000 if chk.tier == "thorough" else 1500)
     for e in [e for e in events if e["ev"] == "incoh"][:2] + [e for e in events if e["ev"] in ("sdelay", "chain")][:2]:
         chk.sample(e["_desc"])
